@@ -69,6 +69,12 @@ Section Cfg.
    rate update is skipped when period*total weight is not positive (commit 2d6ac44), [false] = the
    division / negative DecCoin panics *)
 Variable dynguard : bool.
+(* [payout_safe] (probe; commit c12fc9f): a claim / withdraw proposal whose amount is negative or exceeds
+   the pool's recorded balance returns ErrNotEnoughPoolBalance instead of panicking in NewCoin / Coins.Sub.
+   [quorum_checked] (probe; commit 3610aab): ValidateBasic of the create message / update proposal
+   refuses a vote quorum outside [0,1]. *)
+Variable payout_safe : bool.
+Variable quorum_checked : bool.
 (* network actors: account -> roles in the order stored in the actor; accounts sorted *)
 Variable actors : list (Z * list Z).
 (* the denominations that occur (sorted): used to enumerate a pool's balance coins *)
@@ -257,22 +263,35 @@ Inductive sp_op : Type :=
 | ODistribute (p : Z)                    (* passed SpendingPoolDistributionProposal *)
 | OWithdraw (p : Z) (bens : list Z) (amt : lcoins)   (* passed SpendingPoolWithdrawProposal *)
 | OEndBlock
-| OBankSend (a : Z) (amt : lcoins).      (* plain bank transfer to the module account *)
+| OBankSend (a : Z) (amt : lcoins)       (* plain bank transfer to the module account *)
+| OBadQuorum (upd : bool) (p : Z) (T : terms).   (* create / update carrying a vote quorum outside [0,1] *)
+
+(* the payout failures that the repaired code reports as an error *)
+Definition payout_panic (m : string) : bool :=
+  String.eqb m "negative coin amount" || String.eqb m "negative coin amount (pool book)".
+Definition soften {A} (r : outcome A) : outcome A :=
+  match r with
+  | Panic m => if payout_safe && payout_panic m then Err "pool balance does not cover the amount" else r
+  | _ => r
+  end.
 
 Definition sp_apply (now : Z) (o : sp_op) (s : sstate) : outcome sstate :=
   match o with
   | OCreate p T => sp_create now p T s
   | ODeposit a p amt => sp_deposit a p amt s
   | ORegister a p => sp_register now a p s
-  | OClaim a p => sp_claim now p a s
+  | OClaim a p => soften (sp_claim now p a s)
   | OUpdate p T => sp_update p T s
-  | ODistribute p => sp_distribute now p s
-  | OWithdraw p bens amt => sp_withdraw p bens amt s
+  | ODistribute p => soften (sp_distribute now p s)
+  | OWithdraw p bens amt => soften (sp_withdraw p bens amt s)
   | OEndBlock => sp_endblock now s
   | OBankSend a amt =>
       if negb (coins_valid amt) then Err "invalid coins" else
       if negb (cge_on (cdenoms amt) (s_bank s a) (cof amt)) then Err "insufficient funds"
       else Ok (mkS (s_pools s) (s_claims s) (bank_send (s_bank s) a MODULE (cof amt)))
+  | OBadQuorum upd p T =>
+      if quorum_checked then Err "vote quorum should be between 0 and 1"
+      else if upd then sp_update p T s else sp_create now p T s
   end.
 (* a failed transaction / proposal / end block leaves no trace (cache context dropped) *)
 Definition sp_step (s : sstate) (e : Z * sp_op) : sstate :=
